@@ -13,6 +13,22 @@
 //!   mutecut:d   as mute, and cut both TCP connections d ms after the handshake (a stream request in
 //!               flight fails with the multiplexor's `Closed`)
 //!   healthy     relay until the scenario ends
+//!   tlsstall    (wss only) the answer to the ClientHello stops after its first TLS record (the
+//!               ServerHello): the TLS handshake stalls half-way
+//!   upstall     complete the TLS handshake (if any), read the upgrade request, never answer it
+//!   plain400    a plain-HTTP port: the first bytes that arrive are answered with `HTTP/1.1 400` in
+//!               clear text, then the connection is closed (ws: an HTTP error; wss: not a TLS record,
+//!               `Tls(TcpConnect(InvalidData))`, not retryable)
+//!
+//! TRANSPORT.  A scenario runs over `ws://` or over `wss://` (token `wss-ca`: the client verifies the
+//! server against `--tls-ca`; `wss-insecure`: `--tls-skip-verify`; no token = `ws`).  Over `wss` the
+//! scripted server is the TLS endpoint (a rustls acceptor with a certificate issued by the scenario
+//! CA) and relays the clear text to the real penguin server, so that every behaviour above keeps its
+//! meaning: `refuse` closes the TCP connection under the ClientHello, `stall` accepts the TCP
+//! connection and never answers the ClientHello (the TLS handshake stalls; with `ws` it is the HTTP
+//! upgrade that stalls), `reject` / `abrupt` / `orderly` / `mute` / `mutecut` / `healthy` act after
+//! the TLS handshake.  The property and the model do not depend on the transport except for the class
+//! of the error a closed connection is reported with (`Tls(..)` instead of `Tungstenite(..)`).
 //! `+n` on a step (any number of them, `stall+1+2`): the harness opens local TCP connection number n
 //! during that attempt (5-10 ms after the accept / the completed handshake), writes a token and
 //! waits for its echo.  The client is configured with ONE TCP REMOTE (listener) PER REQUEST NUMBER:
@@ -44,7 +60,7 @@ use std::str::FromStr;
 use std::sync::atomic::{AtomicU16, Ordering};
 use std::sync::{Arc, Mutex};
 use std::time::{Duration, Instant};
-use tokio::io::{AsyncReadExt, AsyncWriteExt};
+use tokio::io::{AsyncRead, AsyncReadExt, AsyncWrite, AsyncWriteExt};
 use tokio::net::{TcpListener, TcpStream};
 
 const EARLY_MS: i64 = 5;
@@ -65,6 +81,33 @@ enum Beh {
     Mute,
     MuteCut(u64),
     Healthy,
+    TlsStall,
+    UpStall,
+    Plain400,
+}
+
+/// Scheme of the server URL and, for `wss`, how the client is told to verify the server.
+#[derive(Clone, Copy, Debug, PartialEq, Eq)]
+enum Transport {
+    Ws,
+    WssCa,
+    WssInsecure,
+}
+
+impl Transport {
+    fn token(self) -> &'static str {
+        match self {
+            Self::Ws => "ws",
+            Self::WssCa => "wss-ca",
+            Self::WssInsecure => "wss-insecure",
+        }
+    }
+    fn parse(s: &str) -> Option<Self> {
+        [Self::Ws, Self::WssCa, Self::WssInsecure].into_iter().find(|t| t.token() == s)
+    }
+    fn tls(self) -> bool {
+        self != Self::Ws
+    }
 }
 
 #[derive(Clone, Debug, PartialEq, Eq)]
@@ -76,6 +119,7 @@ struct Step {
 
 #[derive(Clone, Debug, PartialEq, Eq)]
 struct Scenario {
+    tr: Transport,
     count: u32,
     max_interval: u64,
     hs: u64,
@@ -94,6 +138,9 @@ impl Step {
             Beh::Mute => "mute".to_string(),
             Beh::MuteCut(d) => format!("mutecut:{d}"),
             Beh::Healthy => "healthy".to_string(),
+            Beh::TlsStall => "tlsstall".to_string(),
+            Beh::UpStall => "upstall".to_string(),
+            Beh::Plain400 => "plain400".to_string(),
         };
         self.local.iter().fold(b, |acc, n| format!("{acc}+{n}"))
     }
@@ -108,6 +155,9 @@ impl Step {
                 "reject" => Beh::Reject,
                 "mute" => Beh::Mute,
                 "healthy" => Beh::Healthy,
+                "tlsstall" => Beh::TlsStall,
+                "upstall" => Beh::UpStall,
+                "plain400" => Beh::Plain400,
                 _ => return None,
             },
             Some(("abrupt", d)) => Beh::Abrupt(d.parse().ok()?),
@@ -120,8 +170,11 @@ impl Step {
 }
 
 impl Scenario {
+    /// `scenario [wss-ca|wss-insecure] <count> <max interval> <handshake t/o> <channel t/o> <step>...`
+    /// (a `ws` scenario is written without a transport token, as before the transports existed)
     fn line(&self) -> String {
-        let mut s = format!("scenario {} {} {} {}", self.count, self.max_interval, self.hs, self.ch);
+        let tr = if self.tr.tls() { format!("{} ", self.tr.token()) } else { String::new() };
+        let mut s = format!("scenario {tr}{} {} {} {}", self.count, self.max_interval, self.hs, self.ch);
         for st in &self.steps {
             s.push(' ');
             s.push_str(&st.text());
@@ -129,11 +182,22 @@ impl Scenario {
         s
     }
     fn parse(line: &str) -> Option<Self> {
-        let t: Vec<&str> = line.split_whitespace().collect();
-        if t.len() < 6 || t[0] != "scenario" {
+        let mut t: Vec<&str> = line.split_whitespace().collect();
+        if t.len() < 2 || t[0] != "scenario" {
+            return None;
+        }
+        let tr = match Transport::parse(t[1]) {
+            Some(tr) => {
+                t.remove(1);
+                tr
+            }
+            None => Transport::Ws,
+        };
+        if t.len() < 6 {
             return None;
         }
         let sc = Self {
+            tr,
             count: t[1].parse().ok()?,
             max_interval: t[2].parse().ok()?,
             hs: t[3].parse().ok()?,
@@ -143,7 +207,9 @@ impl Scenario {
         // a request number names one local connection (and one listener)
         let reqs = sc.requests();
         let distinct: std::collections::BTreeSet<u32> = reqs.iter().copied().collect();
-        (distinct.len() == reqs.len()).then_some(sc)
+        // a half-finished TLS handshake needs TLS
+        let tls_ok = sc.tr.tls() || sc.steps.iter().all(|s| s.beh != Beh::TlsStall);
+        (distinct.len() == reqs.len() && tls_ok).then_some(sc)
     }
     /// Every local connection of the script, in script order.
     fn requests(&self) -> Vec<u32> {
@@ -184,8 +250,15 @@ fn oracle(sc: &Scenario) -> Pred {
                 p.fin = "stays".into();
                 return p;
             }
-            Beh::Refuse => failure_class = "transport",
-            Beh::Stall => failure_class = "handshake-timeout",
+            Beh::Plain400 => {
+                // clear text where TLS is expected is not one of the retryable reasons; nor is an HTTP 400
+                p.fin = if sc.tr.tls() { "fatal:tls".into() } else { "fatal:http".into() };
+                return p;
+            }
+            // a connection closed under the handshake is reported by the layer that was waiting
+            Beh::Refuse => failure_class = if sc.tr.tls() { "tls" } else { "transport" },
+            // the one handshake time-out covers TCP connect, TLS handshake and upgrade
+            Beh::Stall | Beh::TlsStall | Beh::UpStall => failure_class = "handshake-timeout",
             Beh::Abrupt(_) | Beh::Orderly(_) => {
                 p.served.extend(pending.drain(..).map(|r| (r, i)));
                 k = 0;
@@ -220,8 +293,8 @@ fn oracle(sc: &Scenario) -> Pred {
 /// Expected duration of attempt `i` (ms), for the run's deadline only.
 fn nominal_duration(sc: &Scenario, st: &Step) -> u64 {
     match st.beh {
-        Beh::Refuse | Beh::Reject | Beh::Healthy => 20,
-        Beh::Stall => sc.hs,
+        Beh::Refuse | Beh::Reject | Beh::Healthy | Beh::Plain400 => 20,
+        Beh::Stall | Beh::TlsStall | Beh::UpStall => sc.hs,
         Beh::Abrupt(d) | Beh::Orderly(d) => d + 30,
         Beh::Mute => sc.ch + 40,
         Beh::MuteCut(d) => d + 30,
@@ -308,6 +381,62 @@ fn find(hay: &[u8], needle: &[u8]) -> bool {
     hay.windows(needle.len()).any(|w| w == needle)
 }
 
+// ---------------------------------------------------------------------------------------------
+// The scripted server's TLS side (for `wss` scenarios)
+// ---------------------------------------------------------------------------------------------
+
+/// One CA and one server certificate (127.0.0.1 / localhost) per process; the CA certificate is on
+/// disk for the client's `--tls-ca`.
+struct Pki {
+    dir: std::path::PathBuf,
+    ca_file: String,
+    acceptor: tokio_rustls::TlsAcceptor,
+}
+
+static PKI: std::sync::OnceLock<Pki> = std::sync::OnceLock::new();
+
+fn pki() -> &'static Pki {
+    PKI.get_or_init(|| {
+        use rcgen::{BasicConstraints, CertificateParams, DistinguishedName, DnType, ExtendedKeyUsagePurpose, IsCa, Issuer, KeyPair, KeyUsagePurpose};
+        use rustls::pki_types::{CertificateDer, PrivateKeyDer, PrivatePkcs8KeyDer};
+        let dn = |cn: &str| {
+            let mut d = DistinguishedName::new();
+            d.push(DnType::CommonName, cn);
+            d.push(DnType::OrganizationName, "penguin-verif C19");
+            d
+        };
+        let mut cap = CertificateParams::new(Vec::<String>::new()).expect("ca params");
+        cap.distinguished_name = dn("C19 scenario CA");
+        cap.is_ca = IsCa::Ca(BasicConstraints::Unconstrained);
+        cap.key_usages = vec![KeyUsagePurpose::KeyCertSign, KeyUsagePurpose::CrlSign, KeyUsagePurpose::DigitalSignature];
+        let cak = KeyPair::generate_for(&rcgen::PKCS_ECDSA_P256_SHA256).expect("ca key");
+        let cac = cap.self_signed(&cak).expect("ca cert");
+        let mut lp = CertificateParams::new(vec!["127.0.0.1".to_string(), "localhost".to_string()]).expect("leaf params");
+        lp.distinguished_name = dn("scripted server");
+        lp.key_usages = vec![KeyUsagePurpose::DigitalSignature];
+        lp.extended_key_usages = vec![ExtendedKeyUsagePurpose::ServerAuth];
+        let lk = KeyPair::generate_for(&rcgen::PKCS_ECDSA_P256_SHA256).expect("leaf key");
+        let lc = lp.signed_by(&lk, &Issuer::from_params(&cap, &cak)).expect("leaf cert");
+        let dir = std::path::PathBuf::from(format!("/verif/.build/tmp/c19-{}", std::process::id()));
+        std::fs::create_dir_all(&dir).expect("scratch directory");
+        let ca_file = dir.join("ca.pem").to_str().expect("utf-8 path").to_string();
+        std::fs::write(&ca_file, cac.pem()).expect("write ca.pem");
+        let provider = rustls::crypto::CryptoProvider::get_default().expect("crypto provider installed").clone();
+        let cfg = rustls::ServerConfig::builder_with_provider(provider)
+            .with_safe_default_protocol_versions()
+            .expect("protocol versions")
+            .with_no_client_auth()
+            .with_single_cert(
+                vec![CertificateDer::from(lc.der().to_vec())],
+                PrivateKeyDer::Pkcs8(PrivatePkcs8KeyDer::from(lk.serialize_der())),
+            )
+            .expect("server certificate");
+        Pki { dir, ca_file, acceptor: tokio_rustls::TlsAcceptor::from(Arc::new(cfg)) }
+    })
+}
+
+const PLAIN_400: &[u8] = b"HTTP/1.1 400 Bad Request\r\ncontent-type: text/plain\r\ncontent-length: 0\r\nconnection: close\r\n\r\n";
+
 struct Ctx {
     t0: Instant,
     obs: Shared,
@@ -354,36 +483,133 @@ async fn local_connection(cx: Arc<Ctx>, req: u32, delay_ms: u64) {
     }
 }
 
-/// One accepted connection of the scripted server.
+fn set_end(cx: &Ctx, i: usize) {
+    let t = ms_since(cx.t0);
+    cx.obs.lock().unwrap().ends[i] = Some(t);
+}
+
+fn spawn_local(cx: &Arc<Ctx>, st: &Step, delay: u64) {
+    for n in &st.local {
+        tokio::spawn(local_connection(cx.clone(), *n, delay));
+    }
+}
+
+/// Read and discard until the peer closes.
+async fn hold_silently<S: AsyncRead + Unpin>(s: &mut S) {
+    let mut buf = [0u8; 4096];
+    while matches!(s.read(&mut buf).await, Ok(n) if n > 0) {}
+}
+
+/// One accepted connection of the scripted server: the part below TLS.
 async fn scripted_connection(cx: Arc<Ctx>, i: usize, mut client: TcpStream) {
-    let step = cx.sc.steps.get(i).cloned();
-    let set_end = |cx: &Ctx| {
-        let t = ms_since(cx.t0);
-        cx.obs.lock().unwrap().ends[i] = Some(t);
-    };
-    let spawn_local = |cx: &Arc<Ctx>, st: &Step, delay: u64| {
-        for n in &st.local {
-            tokio::spawn(local_connection(cx.clone(), *n, delay));
-        }
-    };
-    let Some(step) = step else {
+    let Some(step) = cx.sc.steps.get(i).cloned() else {
         // beyond the script: hold the connection silently (the attempt is recorded)
-        let mut buf = [0u8; 4096];
-        while matches!(client.read(&mut buf).await, Ok(n) if n > 0) {}
-        set_end(&cx);
+        hold_silently(&mut client).await;
+        set_end(&cx, i);
         return;
     };
+    let _ = client.set_nodelay(true);
     match step.beh {
         Beh::Refuse => {
             drop(client);
-            set_end(&cx);
+            set_end(&cx, i);
             spawn_local(&cx, &step, 5);
         }
         Beh::Stall => {
+            // ws: the upgrade request is never answered; wss: the ClientHello is never answered
+            spawn_local(&cx, &step, 5);
+            hold_silently(&mut client).await;
+            set_end(&cx, i);
+        }
+        Beh::Plain400 => {
             spawn_local(&cx, &step, 5);
             let mut buf = [0u8; 4096];
-            while matches!(client.read(&mut buf).await, Ok(n) if n > 0) {}
-            set_end(&cx);
+            if cx.sc.tr.tls() {
+                // the ClientHello (one read is enough: any answer that is not TLS ends the handshake)
+                let _ = client.read(&mut buf).await;
+            } else {
+                let mut head = vec![];
+                while !find(&head, b"\r\n\r\n") {
+                    match client.read(&mut buf).await {
+                        Ok(n) if n > 0 => head.extend_from_slice(&buf[..n]),
+                        _ => break,
+                    }
+                }
+            }
+            let _ = client.write_all(PLAIN_400).await;
+            let _ = client.shutdown().await;
+            set_end(&cx, i);
+            let _ = tokio::time::timeout(Duration::from_millis(500), client.read(&mut buf)).await;
+        }
+        Beh::TlsStall => {
+            // the real TLS answer (a rustls acceptor behind an in-memory pipe), cut after its first record
+            spawn_local(&cx, &step, 5);
+            let (near, far) = tokio::io::duplex(65536);
+            let acceptor = pki().acceptor.clone();
+            let srv = tokio::spawn(async move {
+                let _ = acceptor.accept(far).await;
+            });
+            let (mut nr, mut nw) = tokio::io::split(near);
+            let (mut cr, mut cw) = client.into_split();
+            let mut cbuf = vec![0u8; 16384];
+            let mut sbuf = vec![0u8; 16384];
+            let mut answer: Vec<u8> = vec![];
+            let mut passed = 0usize; // bytes of the answer relayed so far
+            loop {
+                tokio::select! {
+                    r = cr.read(&mut cbuf) => match r {
+                        Ok(n) if n > 0 => { let _ = nw.write_all(&cbuf[..n]).await; }
+                        _ => break, // the client gave up
+                    },
+                    r = nr.read(&mut sbuf) => if let Ok(n) = r && n > 0 {
+                        answer.extend_from_slice(&sbuf[..n]);
+                        // the first record: 5 octets of header, the last two are its length
+                        if answer.len() >= 5 {
+                            let first = 5 + usize::from(u16::from_be_bytes([answer[3], answer[4]]));
+                            let upto = first.min(answer.len());
+                            if upto > passed {
+                                if cw.write_all(&answer[passed..upto]).await.is_err() { break; }
+                                passed = upto;
+                            }
+                        }
+                    } else {
+                        // the acceptor gave up (it never does before the client); keep holding the client
+                        hold_silently(&mut cr).await;
+                        break;
+                    },
+                }
+            }
+            srv.abort();
+            if passed < 6 {
+                cx.obs.lock().unwrap().infra = Some(format!("tlsstall: only {passed} octet(s) of the TLS answer were relayed"));
+            }
+            drop((cr, cw));
+            set_end(&cx, i);
+        }
+        Beh::UpStall | Beh::Reject | Beh::Abrupt(_) | Beh::Orderly(_) | Beh::Mute | Beh::MuteCut(_) | Beh::Healthy => {
+            if cx.sc.tr.tls() {
+                match pki().acceptor.accept(client).await {
+                    Ok(tls) => scripted_upper(cx, i, step, tls).await,
+                    Err(e) => {
+                        cx.obs.lock().unwrap().infra = Some(format!("attempt {i}: the TLS handshake with the scripted server failed: {e}"));
+                        set_end(&cx, i);
+                    }
+                }
+            } else {
+                scripted_upper(cx, i, step, client).await;
+            }
+        }
+    }
+}
+
+/// One accepted connection of the scripted server: the part above TLS (clear text of the tunnel's
+/// HTTP upgrade and WebSocket).
+async fn scripted_upper<S: AsyncRead + AsyncWrite + Unpin>(cx: Arc<Ctx>, i: usize, step: Step, mut client: S) {
+    match step.beh {
+        Beh::UpStall => {
+            spawn_local(&cx, &step, 5);
+            hold_silently(&mut client).await;
+            set_end(&cx, i);
         }
         Beh::Reject => {
             spawn_local(&cx, &step, 5);
@@ -399,7 +625,7 @@ async fn scripted_connection(cx: Arc<Ctx>, i: usize, mut client: TcpStream) {
                 .write_all(b"HTTP/1.1 404 Not Found\r\ncontent-length: 0\r\nconnection: close\r\n\r\n")
                 .await;
             let _ = client.shutdown().await;
-            set_end(&cx);
+            set_end(&cx, i);
             let _ = tokio::time::timeout(Duration::from_millis(500), client.read(&mut buf)).await;
         }
         Beh::Abrupt(_) | Beh::Orderly(_) | Beh::Mute | Beh::MuteCut(_) | Beh::Healthy => {
@@ -407,9 +633,8 @@ async fn scripted_connection(cx: Arc<Ctx>, i: usize, mut client: TcpStream) {
                 cx.obs.lock().unwrap().infra = Some("cannot reach the real server".into());
                 return;
             };
-            let _ = client.set_nodelay(true);
             let _ = upstream.set_nodelay(true);
-            let (mut cr, mut cw) = client.into_split();
+            let (mut cr, mut cw) = tokio::io::split(client);
             let (mut sr, mut sw) = upstream.into_split();
             let mut cbuf = vec![0u8; 16384];
             let mut sbuf = vec![0u8; 16384];
@@ -429,6 +654,7 @@ async fn scripted_connection(cx: Arc<Ctx>, i: usize, mut client: TcpStream) {
                     r = sr.read(&mut sbuf) => match r {
                         Ok(n) if n > 0 => {
                             if cw.write_all(&sbuf[..n]).await.is_err() { break; }
+                            if cw.flush().await.is_err() { break; }
                             if !hs_done {
                                 head.extend_from_slice(&sbuf[..n]);
                                 if find(&head, b"\r\n\r\n") {
@@ -461,16 +687,20 @@ async fn scripted_connection(cx: Arc<Ctx>, i: usize, mut client: TcpStream) {
                             // WebSocket Close, status 1000, unmasked (server to client)
                             let _ = cw.write_all(&[0x88, 0x02, 0x03, 0xE8]).await;
                             let _ = cw.flush().await;
-                            // the client's Close reply (or its EOF), then close the TCP connection
+                            // the client's Close reply (or its EOF), then close the connection (over TLS:
+                            // with close_notify, as an orderly server does)
                             let _ = tokio::time::timeout(Duration::from_millis(500), cr.read(&mut cbuf)).await;
+                            let _ = tokio::time::timeout(Duration::from_millis(100), cw.shutdown()).await;
                         }
+                        // (abrupt, mutecut: the TCP connection goes without a TLS close_notify)
                         break;
                     }
                 }
             }
             drop((cr, cw, sr, sw));
-            set_end(&cx);
+            set_end(&cx, i);
         }
+        Beh::Refuse | Beh::Stall | Beh::TlsStall | Beh::Plain400 => unreachable!("handled below TLS"),
     }
 }
 
@@ -539,7 +769,9 @@ async fn run_scenario_async(sc: Scenario) -> Obs {
     }
     // the real client
     let args: &'static ClientArgs = Box::leak(Box::new(ClientArgs {
-        server: ServerUrl::from_str(&format!("ws://{front_addr}/ws")).expect("server url"),
+        server: ServerUrl::from_str(&format!("{}://{front_addr}/ws", if sc.tr.tls() { "wss" } else { "ws" })).expect("server url"),
+        tls_ca: (sc.tr == Transport::WssCa).then(|| pki().ca_file.clone()),
+        tls_skip_verify: sc.tr == Transport::WssInsecure,
         remote: remotes,
         keepalive: OptionalDuration::NONE,
         max_retry_count: sc.count,
@@ -663,7 +895,7 @@ fn compare(sc: &Scenario, p: &Pred, o: &Obs) -> Vec<(String, String)> {
     for (i, st) in sc.steps.iter().enumerate().take(n_obs) {
         let (Some(acc), Some(Some(end))) = (o.accepts.get(i), o.ends.get(i)) else { continue };
         match st.beh {
-            Beh::Stall => {
+            Beh::Stall | Beh::TlsStall | Beh::UpStall => {
                 let dur = end - acc;
                 let want = sc.hs as i64;
                 if dur < want - EARLY_MS {
@@ -816,29 +1048,67 @@ fn fixed_scenarios() -> Vec<Scenario> {
     use Beh::*;
     vec![
         // retry limit: 3 retries, capped delays 200, 400, 500
-        Scenario { count: 3, max_interval: 500, hs: 300, ch: 300, steps: vec![st(Refuse, None), st(Refuse, None), st(Refuse, None), st(Refuse, None)] },
+        Scenario { tr: Transport::Ws, count: 3, max_interval: 500, hs: 300, ch: 300, steps: vec![st(Refuse, None), st(Refuse, None), st(Refuse, None), st(Refuse, None)] },
         // stalled handshakes
-        Scenario { count: 1, max_interval: 1000, hs: 300, ch: 300, steps: vec![st(Stall, Some(1)), st(Stall, None)] },
+        Scenario { tr: Transport::Ws, count: 1, max_interval: 1000, hs: 300, ch: 300, steps: vec![st(Stall, Some(1)), st(Stall, None)] },
         // a connection opened while down is served by the next connection; back-off restarts after it
-        Scenario { count: 0, max_interval: 1000, hs: 300, ch: 300, steps: vec![st(Refuse, None), st(Refuse, Some(1)), st(Abrupt(300), None), st(Refuse, None), st(Healthy, Some(2))] },
+        Scenario { tr: Transport::Ws, count: 0, max_interval: 1000, hs: 300, ch: 300, steps: vec![st(Refuse, None), st(Refuse, Some(1)), st(Abrupt(300), None), st(Refuse, None), st(Healthy, Some(2))] },
         // orderly close by the server must also lead to a reconnect
-        Scenario { count: 2, max_interval: 1000, hs: 300, ch: 300, steps: vec![st(Orderly(200), Some(1)), st(Refuse, None), st(Orderly(200), None), st(Healthy, Some(2))] },
+        Scenario { tr: Transport::Ws, count: 2, max_interval: 1000, hs: 300, ch: 300, steps: vec![st(Orderly(200), Some(1)), st(Refuse, None), st(Orderly(200), None), st(Healthy, Some(2))] },
         // a stream request that timed out is parked and served first by the next connection
-        Scenario { count: 0, max_interval: 1000, hs: 300, ch: 300, steps: vec![st(Mute, Some(1)), st(Refuse, None), st(Healthy, Some(2))] },
+        Scenario { tr: Transport::Ws, count: 0, max_interval: 1000, hs: 300, ch: 300, steps: vec![st(Mute, Some(1)), st(Refuse, None), st(Healthy, Some(2))] },
         // a non-retryable error ends the client at once
-        Scenario { count: 0, max_interval: 500, hs: 300, ch: 300, steps: vec![st(Refuse, None), st(Reject, None), st(Refuse, None)] },
+        Scenario { tr: Transport::Ws, count: 0, max_interval: 500, hs: 300, ch: 300, steps: vec![st(Refuse, None), st(Reject, None), st(Refuse, None)] },
         // a backlog: two local connections accepted while the tunnel was down are both waiting when a
         // connection comes up and goes silent; the first request times out (parked), the second must
         // still be there for the next connection
-        Scenario { count: 0, max_interval: 1000, hs: 300, ch: 300, steps: vec![st(Refuse, Some(1)), st(Refuse, Some(2)), st(Mute, None), st(Healthy, Some(3))] },
+        Scenario { tr: Transport::Ws, count: 0, max_interval: 1000, hs: 300, ch: 300, steps: vec![st(Refuse, Some(1)), st(Refuse, Some(2)), st(Mute, None), st(Healthy, Some(3))] },
         // three at once during a stalled handshake; the connection that picks them up is cut under the
         // first request, the next one is silent, then a refusal, then a healthy one serves all
-        Scenario { count: 0, max_interval: 500, hs: 300, ch: 300, steps: vec![stv(Stall, &[1, 2, 3]), st(MuteCut(120), None), st(Mute, Some(4)), st(Refuse, None), st(Healthy, Some(5))] },
+        Scenario { tr: Transport::Ws, count: 0, max_interval: 500, hs: 300, ch: 300, steps: vec![stv(Stall, &[1, 2, 3]), st(MuteCut(120), None), st(Mute, Some(4)), st(Refuse, None), st(Healthy, Some(5))] },
     ]
+}
+
+/// The transport dimension: every fixed scenario once more over `wss` (certificate verification
+/// against the CA / switched off, alternating), and scenarios for the faults that only exist there.
+fn fixed_tls_scenarios() -> Vec<Scenario> {
+    use Beh::*;
+    use Transport::{WssCa, WssInsecure};
+    let mut v: Vec<Scenario> = fixed_scenarios()
+        .into_iter()
+        .enumerate()
+        .map(|(i, sc)| Scenario { tr: if i % 2 == 0 { WssCa } else { WssInsecure }, ..sc })
+        .collect();
+    v.extend([
+        // the TLS handshake stalls at each of its stages, then the upgrade; retry limit 3
+        Scenario { tr: WssInsecure, count: 3, max_interval: 500, hs: 250, ch: 300, steps: vec![st(Stall, None), st(TlsStall, Some(1)), st(UpStall, None), st(Stall, None)] },
+        // a server that is a black hole for a while and then recovers: the connection accepted meanwhile is served
+        Scenario { tr: WssCa, count: 0, max_interval: 1000, hs: 300, ch: 300, steps: vec![st(Stall, Some(1)), st(TlsStall, None), st(Healthy, Some(2))] },
+        // connections closed under the ClientHello are retried and given up (the error is a TLS one)
+        Scenario { tr: WssCa, count: 2, max_interval: 1000, hs: 300, ch: 300, steps: vec![st(Refuse, None), st(Refuse, Some(1)), st(Refuse, None)] },
+        // clear text where TLS is expected ends the client at once, also after a working connection
+        Scenario { tr: WssInsecure, count: 0, max_interval: 500, hs: 300, ch: 300, steps: vec![st(Refuse, Some(1)), st(Abrupt(200), None), st(Plain400, None), st(Healthy, None)] },
+        // the same server behaviour over ws is an HTTP error
+        Scenario { tr: Transport::Ws, count: 0, max_interval: 500, hs: 300, ch: 300, steps: vec![st(UpStall, None), st(Plain400, None), st(Healthy, None)] },
+    ]);
+    v
 }
 
 fn random_scenario(r: &mut Rng) -> Scenario {
     loop {
+        // the transport: about half of the scenarios over wss
+        let tr = *r.pick(&[Transport::Ws, Transport::Ws, Transport::WssCa, Transport::WssInsecure]);
+        // where a stalling server stalls (over ws there is only the upgrade to stall)
+        let stall = |r: &mut Rng| -> Beh {
+            if !tr.tls() {
+                return if r.chance(1, 4) { Beh::UpStall } else { Beh::Stall };
+            }
+            match r.below(5) {
+                0 | 1 => Beh::Stall,
+                2 | 3 => Beh::TlsStall,
+                _ => Beh::UpStall,
+            }
+        };
         let count = *r.pick(&[0u32, 0, 1, 2, 3]);
         let max_interval = *r.pick(&[120u64, 250, 500, 1000]);
         let hs = *r.pick(&[200u64, 300]);
@@ -861,7 +1131,7 @@ fn random_scenario(r: &mut Rng) -> Scenario {
             for i in 0..downs {
                 let n = if i + 1 == downs { total } else { r.range(1, total - 1) };
                 total -= n;
-                let beh = if r.chance(1, 3) { Beh::Stall } else { Beh::Refuse };
+                let beh = if r.chance(1, 3) { stall(r) } else { Beh::Refuse };
                 steps.push(Step { beh, local: take(n, &mut next_req) });
                 pending += n as u32;
             }
@@ -872,7 +1142,7 @@ fn random_scenario(r: &mut Rng) -> Scenario {
         for _ in 0..len {
             let beh = match r.below(11) {
                 0..=2 => Beh::Refuse,
-                3 | 4 => Beh::Stall,
+                3 | 4 => stall(r),
                 5 | 6 => Beh::Abrupt(*r.pick(&[150u64, 300])),
                 7 | 8 => Beh::Orderly(*r.pick(&[150u64, 250])),
                 9 => Beh::MuteCut(*r.pick(&[60u64, 120])),
@@ -895,12 +1165,18 @@ fn random_scenario(r: &mut Rng) -> Scenario {
             steps.push(Step { beh, local });
         }
         let last = match r.below(10) {
-            0 => Beh::Reject,
+            0 => {
+                if r.chance(1, 2) {
+                    Beh::Reject
+                } else {
+                    Beh::Plain400
+                }
+            }
             1 | 2 => Beh::Refuse,
             _ => Beh::Healthy,
         };
         steps.push(Step { beh: last, local: if r.chance(1, 2) { take(1, &mut next_req) } else { vec![] } });
-        let mut sc = Scenario { count, max_interval, hs, ch, steps };
+        let mut sc = Scenario { tr, count, max_interval, hs, ch, steps };
         // keep what is executed; make the end determinate
         let p = oracle(&sc);
         sc.steps.truncate(p.attempts);
@@ -919,18 +1195,27 @@ fn random_scenario(r: &mut Rng) -> Scenario {
 // Main
 // ---------------------------------------------------------------------------------------------
 
+/// `width` workers take the scenarios in order (longest first would not be reproducible in its
+/// timing either; the order is the list's).
 fn run_parallel(scs: &[Scenario], width: usize) -> Vec<Outcome> {
-    let mut out: Vec<Option<Outcome>> = (0..scs.len()).map(|_| None).collect();
-    for (ci, chunk) in scs.chunks(width).enumerate() {
-        let res: Vec<Outcome> = std::thread::scope(|s| {
-            let hs: Vec<_> = chunk.iter().map(|sc| s.spawn(move || evaluate(sc))).collect();
-            hs.into_iter().map(|h| h.join().expect("scenario thread")).collect()
-        });
-        for (j, r) in res.into_iter().enumerate() {
-            out[ci * width + j] = Some(r);
+    let next = std::sync::atomic::AtomicUsize::new(0);
+    let out: Vec<Mutex<Option<Outcome>>> = (0..scs.len()).map(|_| Mutex::new(None)).collect();
+    std::thread::scope(|s| {
+        for w in 0..width.clamp(1, scs.len().max(1)) {
+            let (next, out) = (&next, &out);
+            s.spawn(move || {
+                // the workers do not all start their first scenario (runtime, listeners, real server) in
+                // the same millisecond
+                std::thread::sleep(Duration::from_millis(35 * w as u64));
+                loop {
+                    let i = next.fetch_add(1, Ordering::Relaxed);
+                    let Some(sc) = scs.get(i) else { break };
+                    *out[i].lock().unwrap() = Some(evaluate(sc));
+                }
+            });
         }
-    }
-    out.into_iter().map(|o| o.expect("outcome")).collect()
+    });
+    out.into_iter().map(|o| o.into_inner().unwrap().expect("outcome")).collect()
 }
 
 fn replay(path: &str) -> i32 {
@@ -941,6 +1226,9 @@ fn replay(path: &str) -> i32 {
         println!("unknown replay");
         return 2;
     };
+    if sc.tr.tls() {
+        let _ = pki();
+    }
     println!("scenario   {}", sc.line());
     println!("expected   {:?}", normalise(oracle(&sc)));
     let mut out = evaluate(&sc);
@@ -949,6 +1237,7 @@ fn replay(path: &str) -> i32 {
         out = evaluate(&sc);
     }
     println!("observed   {}", obs_json(&out.obs));
+    remove_scratch();
     if out.impl_bad.is_empty() {
         println!("holds on this input");
         0
@@ -960,15 +1249,22 @@ fn replay(path: &str) -> i32 {
     }
 }
 
+fn remove_scratch() {
+    if let Some(p) = PKI.get() {
+        let _ = std::fs::remove_dir_all(&p.dir);
+    }
+}
+
 fn main() {
     let args = Args::parse();
     rusty_penguin_lib::tls::init_crypto_provider();
     if let Some(p) = &args.replay {
         std::process::exit(replay(p));
     }
-    let rule = "scenario = (max_retry_count, max_retry_interval, handshake_timeout, channel_timeout, script of scripted-server \
-behaviours per connection attempt with local connections opened at chosen attempts) run in real time on the real \
-client_main_inner; non-trivial = at least two connection attempts (one retry); distinct by content";
+    let rule = "scenario = (transport ws / wss verified against a CA / wss unverified, max_retry_count, max_retry_interval, \
+handshake_timeout, channel_timeout, script of scripted-server behaviours per connection attempt with local connections \
+opened at chosen attempts) run in real time on the real client_main_inner; non-trivial = at least two connection attempts \
+(one retry); distinct by content";
     let mut rep = Report::new("client", &args, rule);
     let mut drv = args.driver.as_deref().map(|p| Driver::spawn(p, &[]).expect("start Lean driver"));
     let mut scs: Vec<Scenario> = vec![];
@@ -977,15 +1273,19 @@ client_main_inner; non-trivial = at least two connection attempts (one retry); d
     }
     let n_corpus = scs.len();
     scs.extend(fixed_scenarios());
+    scs.extend(fixed_tls_scenarios());
     let (n_random, width) = match args.tier {
-        Tier::Quick => (2, 8),
-        Tier::Thorough => (54, 12),
+        Tier::Quick => (4, 10),
+        Tier::Thorough => (60, 12),
     };
     let mut rng = Rng::new(args.seed);
     for _ in 0..n_random {
         scs.push(random_scenario(&mut rng));
     }
     let width = args.opt("--width").and_then(|w| w.parse().ok()).unwrap_or(width);
+    if scs.iter().any(|sc| sc.tr.tls()) {
+        let _ = pki(); // key generation outside the timed runs
+    }
     let mut outs = run_parallel(&scs, width);
     // a failing scenario is run once more on its own (real-time noise) before it is reported
     let mut reruns = 0;
@@ -1014,13 +1314,22 @@ client_main_inner; non-trivial = at least two connection attempts (one retry); d
         let line = sc.line();
         let exp = normalise(oracle(sc));
         rep.case((exp.attempts >= 2).then(|| fnv(line.as_bytes())));
+        rep.count(if sc.tr.tls() { "transport/wss" } else { "transport/ws" });
+        if sc.tr.tls() {
+            rep.count(&format!("transport/{}", sc.tr.token()));
+        }
         for s in &sc.steps {
-            rep.count(&format!("behaviour/{}", s.text().split([':', '+']).next().unwrap_or("?")));
+            let b = s.text();
+            let b = b.split([':', '+']).next().unwrap_or("?");
+            rep.count(&format!("behaviour/{b}"));
+            if sc.tr.tls() {
+                rep.count(&format!("behaviour-over-wss/{b}"));
+            }
             rep.count_n("local-connection", s.local.len() as u64);
         }
         rep.count(&format!("final/{}", exp.fin.split(':').next().unwrap_or("?")));
         rep.count_n("attempts", out.obs.accepts.len() as u64);
-        if i < n_corpus + 6 {
+        if i < n_corpus + 6 || (sc.tr.tls() && i % 4 == 0) {
             rep.sample(json!({"scenario": line, "expected": format!("{exp:?}"), "observed": obs_json(&out.obs)}));
         }
         for (k, d) in &out.impl_bad {
@@ -1070,5 +1379,6 @@ client_main_inner; non-trivial = at least two connection attempts (one retry); d
     }
     rep.notes.push(format!("time tolerance: -{EARLY_MS} ms / +{LATE_MS} ms on back-off delays and the handshake time-out, +{LATE_CH_MS} ms on the channel time-out"));
     rep.finish(&args);
+    remove_scratch();
     std::process::exit(i32::from(rep.has_failures()));
 }
